@@ -137,12 +137,18 @@ func runParseCases(cases []*Case, out *vio.Out, caseLog *vio.Out) {
 		noise = dsl.NewNoise(2)
 	}
 	old := runtime.GOMAXPROCS(0)
+	hung := false
 	for _, p := range []int{1, 2, 3, 4, 8, 16, 32} {
-		if !procsSet[p] {
+		if !procsSet[p] || hung {
 			continue
 		}
 		runtime.GOMAXPROCS(p)
 		for _, c := range cases {
+			if hung {
+				// a call that does not return keeps its goroutines (possibly spinning) for ever: the
+				// observation is recorded and this process runs no further case
+				break
+			}
 			has := false
 			for _, q := range c.Procs {
 				has = has || q == p
@@ -188,6 +194,9 @@ func runParseCases(cases []*Case, out *vio.Out, caseLog *vio.Out) {
 						a.err = trim(o.Err, 300)
 					}
 				}
+				if !o.Returned {
+					hung = true
+				}
 				if !o.Returned || o.Leaked > 0 {
 					// do not pile up stuck calls or leaked goroutines: one observation decides,
 					// and every goroutine left behind makes the following stack dumps slower
@@ -204,7 +213,11 @@ func runParseCases(cases []*Case, out *vio.Out, caseLog *vio.Out) {
 			if a == nil {
 				continue
 			}
-			out.Emit(ev{"ev": "parse", "case": c.ID, "procs": p, "runs": a.runs, "returned": a.returned,
+			pre := "ok"
+			if c.Font == "0" || c.Font == "00" {
+				pre = "nocmap" // the font has no usable character map: Parse refuses before it looks at the text
+			}
+			out.Emit(ev{"ev": "parse", "case": c.ID, "procs": p, "pre": pre, "runs": a.runs, "returned": a.returned,
 				"oks": a.oks, "errs": a.errs, "panics": a.panics, "leaks": a.leaks, "noline": a.noline,
 				"minline": a.minline, "maxline": a.maxline, "nlines": 1 + strings.Count(c.Text, "\n"),
 				"err": a.err, "pmsg": a.pmsg, "stack": a.stack})
@@ -284,6 +297,7 @@ func (t tlcTok) escaped() bool {
 
 type faultCase struct {
 	Toks   []tlcTok `json:"toks"`
+	Pre    string   `json:"pre"` // "ok", or the precondition of Parse that fails
 	Lexerr bool     `json:"lexerr"`
 	Fat    struct {
 		At   int `json:"at"`
@@ -325,6 +339,15 @@ func realise(fc *faultCase, cat []*desc, rng *rand.Rand, nreal int) (texts []str
 		texts = append(texts, pre+text+tail)
 		fonts = append(fonts, d.font)
 		origins = append(origins, how)
+	}
+	if fc.Pre == "nocmap" { // early return: any text, over the fonts without a usable character map
+		for k, f := range []string{"0", "00"} {
+			d := cat[rng.Intn(len(cat))]
+			texts = append(texts, []string{d.text, d.upTo(len(fc.Toks))}[k]+tail)
+			fonts = append(fonts, f)
+			origins = append(origins, "precondition fails: no usable cmap")
+		}
+		return
 	}
 	for k := 0; k < nreal; k++ {
 		d := cat[rng.Intn(len(cat))]
@@ -501,9 +524,31 @@ func sweep(shapesPath, outPath string) {
 			}
 		}
 	}
+	// every lexical construct at the END OF THE INPUT without a line break, cut at every character, alone
+	// and after a valid lookup; line-break variants; inputs that are only comments or white space
+	for _, t := range dsl.EOFTexts() {
+		if !seen["nc"+t] {
+			seen["nc"+t] = true
+			add("nc", t, "lexical construct at the end of the input")
+		}
+	}
+	// fonts without a usable character map (Parse returns early): valid descriptions, end-of-input texts
+	for _, f := range []string{"0", "00"} {
+		for di, d := range cat {
+			if di%4 == 0 {
+				add(f, d.text, fmt.Sprintf("description %d over a font without usable cmap", di))
+			}
+		}
+		for i, t := range dsl.EOFTexts() {
+			if i%7 == 0 {
+				add(f, t, "end-of-input text over a font without usable cmap")
+			}
+		}
+		add(f, "", "empty input over a font without usable cmap")
+	}
 	nmut := id
 	rng := vio.Rand(192)
-	fontsAll := []string{"nc", "c", "n", "x"}
+	fontsAll := []string{"nc", "c", "n", "x", "0", "00"}
 	for i := 0; i < nrand; i++ {
 		f := fontsAll[rng.Intn(len(fontsAll))]
 		switch rng.Intn(3) {
@@ -534,6 +579,7 @@ func runRT(c *Case, out *vio.Out) {
 	f := font(s.Font)
 	ll := dsl.Instantiate(s, c.Seed)
 	before, note := dsl.Canon(ll)
+	bfmt := dsl.Formats(ll)
 	bj, _ := json.Marshal(before)
 	reps := 3
 	if s.A >= 13 || s.B >= 13 || len(s.Forms) >= 13 {
@@ -543,7 +589,8 @@ func runRT(c *Case, out *vio.Out) {
 	for r := 0; r < reps; r++ {
 		text, xpanic := explain(f, s.Tab, ll)
 		e = ev{"ev": "rt", "case": c.ID, "shape": s, "text": text, "xpanic": trim(xpanic, 300), "note": note,
-			"before": before, "after": []any{}, "perr": "", "ppanic": "", "returned": true, "leaks": 0, "rep": r}
+			"before": before, "after": []any{}, "perr": "", "ppanic": "", "returned": true, "leaks": 0, "rep": r,
+			"bfmt": bfmt, "afmt": [][]int{}}
 		if xpanic != "" {
 			break
 		}
@@ -559,11 +606,17 @@ func runRT(c *Case, out *vio.Out) {
 		if o.OK {
 			after, note2 := dsl.Canon(o.Lookups)
 			e["after"] = after
+			afmt := dsl.Formats(o.Lookups)
+			e["afmt"] = afmt
 			if note2 != "" {
 				e["note"] = note2
 			}
 			aj, _ := json.Marshal(after)
-			good = good && string(aj) == string(bj)
+			fj, _ := json.Marshal(afmt)
+			gj, _ := json.Marshal(bfmt)
+			// (a Gsub1_2 with a constant delta comes back as Gsub1_1: such a repetition is recorded early,
+			// which is harmless -- the verdict is TLC's)
+			good = good && string(aj) == string(bj) && string(fj) == string(gj)
 		}
 		if !good {
 			break
